@@ -15,7 +15,19 @@ def fieldmon_sources(work):
     return vlib.lib_sources() + vlib.gen_bindings(work) + vlib.core_sources() + [os.path.join(VERIF, 'mon', 'fieldmon.c')]
 
 
+_built = {}
+_build_lock = __import__('threading').Lock()
+
+
 def build_fieldmon(work, variant='asan'):
+    with _build_lock:
+        key = (work.dir, variant)
+        if key not in _built:
+            _built[key] = _build_fieldmon(work, variant)
+        return _built[key]
+
+
+def _build_fieldmon(work, variant='asan'):
     src = fieldmon_sources(work)
     if variant == 'asan':
         return vlib.compile_many(work, 'fieldmon_asan', src, vlib.ASAN_FLAGS)
@@ -36,7 +48,7 @@ def filt(obs, prefixes):
     """Keep only violation keys that belong to this property (by key prefix) or sanitizer/signal keys."""
     keep = {}
     for k, v in obs.viol.items():
-        if any(k.startswith(p) for p in prefixes) or k.split(':')[0] in ('ASan', 'UBSan', 'signal', 'LeakSan'):
+        if any(k.startswith(p) for p in prefixes) or k.split(':')[0] in ('AddressSan', 'UBSan', 'UndefinedBehaviorSan', 'LeakSan', 'ThreadSan', 'signal'):
             keep[k] = v
     obs.viol = keep
 
@@ -49,7 +61,7 @@ ASSUME_COMMON = [
 ]
 
 
-PLACES = (0, 4, 1)    # PDU byte offsets from a 16-byte boundary: header start 16-aligned, 64-bit fields 8-aligned, odd address
+PLACES = (0, 4, 1, 2)    # PDU byte offsets from a 16-byte boundary: header 16-aligned, 64-bit fields 8-aligned, odd, 2 mod 4 (behind a 14-byte Ethernet header)
 
 
 def reps(tier, quick, thorough):
@@ -70,7 +82,7 @@ def c01(tier, seed):
         raw = int(obs.stats.get('nontrivial', 0)) - named * len(PLACES)
         filt(obs, ['read:', 'raw:RAW:get'])
         cov = dict(distinct_nontrivial=named + raw, named_field_paths=named, raw_descriptor_shapes=raw, placements=list(PLACES),
-                   rule='(at PDU byte offsets 0, 4 and 1 from a 16-byte boundary) every spec field x {generic, dedicated} path x {zero, ones, checkerboards, field-saturated, field-cleared, '
+                   rule='(at PDU byte offsets 0, 4, 1 and 2 from a 16-byte boundary) every spec field x {generic, dedicated} path x {zero, ones, checkerboards, field-saturated, field-cleared, '
                         'walking-1 and walking-0 over every header bit, every value of fields up to 12 bits wide, %d random buffers}; raw reader over start quadlet '
                         '{0..7,11,30,61} x bit offset 0..31 x width 0..64.  A (field,path) or descriptor shape counts as '
                         'non-trivial when the observed results were not all equal / a write changed bytes.' % R,
@@ -94,7 +106,7 @@ def c02(tier, seed):
         raw = int(obs.stats.get('nontrivial', 0)) - named * len(PLACES)
         filt(obs, ['write:', 'raw:RAW:set'])
         cov = dict(distinct_nontrivial=named + raw, named_field_paths=named, raw_descriptor_shapes=raw, placements=list(PLACES),
-                   rule='(at PDU byte offsets 0, 4 and 1 from a 16-byte boundary) every spec field x {generic, dedicated} path x prior buffers {zero, ones, checkerboards, random} x 14 value '
+                   rule='(at PDU byte offsets 0, 4, 1 and 2 from a 16-byte boundary) every spec field x {generic, dedicated} path x prior buffers {zero, ones, checkerboards, random} x 14 value '
                         'classes (0,1,max,msb,2^w,2^w+1,2^64-1,alternating,walking,random-fit,random-64) + every single bit of the '
                         'field set/cleared + every value of fields up to 12 bits wide (plain and with garbage above the width) + %d random (buffer,value) pairs; whole 8 KiB arena compared with the model after each '
                         'write, then read back.  Non-trivial: the write changed at least one bit.' % R,
@@ -136,6 +148,9 @@ def c04(tier, seed):
         b = build_fieldmon(work)
         R = reps(tier, 3000, 1000000)
         run_modes(obs, b, [dict(VP_MODE='init', VP_FORMATS=f, VP_REPS=R if pl == 0 else max(20, R // 8), VP_PLACE=pl) for f in format_ids() for pl in PLACES], seed)
+        # first-call effects: processes whose first library call is the legacy initialiser, with rotated argument order
+        lf = [f['id'] for f in S.load()['formats'] if f['legacy'] and f['legacy']['init']]
+        run_modes(obs, b, [dict(VP_MODE='init', VP_FORMATS=f, VP_REPS=8, VP_LEGACYFIRST=1, VP_FIRSTARG=a) for f in lf for a in (255, 128, 1, 2, 254)], seed)
         filt(obs, ['init:'])
         cov = dict(distinct_nontrivial=int(obs.stats.get('nontrivial', 0)), placements=list(PLACES),
                    rule='20 current + 4 legacy initialisers (avtp_cvf_pdu_init for all 256 format_subtype values) x prior contents '
@@ -155,15 +170,23 @@ def c05(tier, seed):
         b = build_fieldmon(work)
         E = reps(tier, 400, 120000)
         run_modes(obs, b, [dict(VP_MODE='history', VP_FORMATS=f, VP_EPISODES=E if pl == 0 else max(20, E // 8), VP_PLACE=pl) for f in format_ids() for pl in PLACES], seed)
-        filt(obs, ['history:'])
+        # direct-call sequences (same getter called repeatedly in one function, buffer changed in between), in the ASan build and
+        # in optimised gcc/clang builds: declaration-level slips (const/pure attributes, inlined fast paths) show only there
+        dj = [dict(VP_MODE='direct', VP_FORMATS='all', VP_REPS=reps(tier, 400, 40000), VP_PLACE=pl) for pl in PLACES]
+        run_modes(obs, b, dj, seed)
+        for v in ('gcc-O2', 'clang-O2') + (('gcc-O3', 'clang-O1', 'gcc-O0') if tier == 'thorough' else ()):
+            run_modes(obs, build_fieldmon(work, v), dj, seed, tag='direct-' + v)
+        filt(obs, ['history:', 'direct:'])
         cov = dict(distinct_nontrivial=int(obs.stats.get('history.distinct_histories', 0)),
                    episodes=int(obs.stats.get('history.episodes', 0)), history_ops=int(obs.stats.get('history.ops', 0)),
-                   commutation_pairs=int(obs.stats.get('history.commutation_pairs', 0)),
+                   commutation_pairs=int(obs.stats.get('history.commutation_pairs', 0)), state_pair_steps=int(obs.stats.get('history.state_pair_steps', 0)),
                    rule='%d episodes per format: 4..8 buffers of random formats (slot 0 of the format under test), 20..200 operations '
                         'drawn from {init current/legacy, set via generic/dedicated/legacy, get via any path}; after every operation '
                         'the touched arena and all other arenas are compared with the model; at episode end every getter on every '
                         'buffer; slot 0 history replayed alone must give identical bytes; plus all ordered field pairs of each format '
-                        'for commutation and idempotence.  distinct_nontrivial = distinct operation-sequence hashes.' % E)
+                        'for commutation and idempotence; plus direct-call sequences (get, set, get, replace header, get for every accessor, all '
+                        'in one function) in the ASan build and optimised gcc/clang builds.  distinct_nontrivial = distinct operation-sequence '
+                        'hashes.' % E)
         return vlib.finish('C05', 'exploration', tier, seed, obs, cov, ASSUME_COMMON, t0, min_evals=100000)
     finally:
         work.cleanup()
@@ -181,7 +204,7 @@ def c11(tier, seed):
         filt(obs, ['badargs:'])
         cov = dict(distinct_nontrivial=int(obs.stats.get('nontrivial', 0)) // len(seeds), repetitions_with_other_buffers=len(seeds),
                    rule='per format: generic get/set with identifiers {MAX, MAX+1, 127, 128, 255, 256+k, 512+k, 65536+k for every '
-                        'valid k, INT_MAX, INT_MIN, -1, random} on all-ones/random buffers (reader must return 0, writer must leave '
+                        'valid k, ceil(m*2^32/d)+k for d in {2,3,4,5,6,8,12,16,24} (identifiers that wrap to a valid index when scaled), INT_MAX, INT_MIN, -1, random} on all-ones/random buffers (reader must return 0, writer must leave '
                         'the whole arena unchanged); null PDU through every generic/dedicated accessor and initialiser (no fault); '
                         'legacy wrappers over {null,valid} PDU x {null,valid} result x identifiers (rc == -EINVAL / 0, result slot '
                         'untouched on error).  Every case is a distinct invalid-argument combination.')
@@ -201,7 +224,10 @@ def c12(tier, seed):
         R = reps(tier, 3000, 1000000)
         fm = [f['id'] for f in S.load()['formats'] if f['legacy']]
         run_modes(obs, b, [dict(VP_MODE='legacy', VP_FORMATS=f, VP_REPS=R if pl == 0 else max(20, R // 8), VP_PLACE=pl) for f in fm for pl in PLACES], seed)
-        filt(obs, ['legacy:'])
+        dj = [dict(VP_MODE='direct', VP_FORMATS=f, VP_REPS=reps(tier, 400, 40000)) for f in fm]
+        run_modes(obs, b, dj, seed)
+        run_modes(obs, build_fieldmon(work, 'gcc-O2'), dj, seed, tag='direct-gcc-O2')
+        filt(obs, ['legacy:', 'direct:'])
         cov = dict(distinct_nontrivial=int(obs.stats.get('nontrivial', 0)) // len(PLACES), legacy_formats=fm, placements=list(PLACES),
                    rule='5 legacy formats x every field identifier and every legacy alias macro: legacy get vs current GetField on '
                         'identical buffers (%d buffers per field), legacy set vs current SetField (bytes must be identical and equal '
